@@ -35,6 +35,9 @@ def check(repo: Repo, rep, tier):
     io_newline(repo, rep)
     io_encoding(repo, rep)
     line_model(repo, rep)
+    from .C15 import parse_before_write
+
+    parse_before_write(repo, rep)
 
 
 def edit_calls(repo: Repo):
